@@ -167,8 +167,8 @@ def run_case(i, seed, tier):
         cfg = cfg.with_extra(g.vd_extras(bool(cfg.joliet), cfg.xa))
     profile = ['grow', 'std', 'churn', 'grow', 'names', 'links'][i % 6]
     nops = g.rng.choice([5, 12, 25, 40]) if tier == 'quick' else g.rng.choice([10, 30, 60, 120])
-    if i % 25 == 9:
-        cfg, sops = common.special_layout(g, common.SPECIALS[(i // 25) % len(common.SPECIALS)])
+    if i % 10 == 9:
+        cfg, sops = common.special_layout(g, common.SPECIALS[(i // 10) % len(common.SPECIALS)])
         h = common.History(cfg, seed * 1000003 + i, 'std', max_size=5000)
         for op in sops:
             h.apply(op)
